@@ -56,6 +56,29 @@ LogScen == [S1 |-> Sn("F1", "", FALSE, -1, 0, 1, <<St("S1", 1, FALSE, "run")>>),
             S2 |-> Sn("F1", "", FALSE, 1, 0, 2, <<St("S2", 1, FALSE, "run")>>)]
 Log2 == Case(2, FALSE, TRUE, TRUE, [F1 |-> Ft(2, 0, 2, <<"S1", "S2">>)], <<>>, LogScen, <<PF("F1")>>)
 
+\* mix: a serial scenario in a rule (with rule background) with one retry, two concurrent ones
+\* (one with a no-match step, one ambiguous with a retry) in two features, before and after hooks
+MixScen == [S1 |-> Sn("F1", "R1", TRUE, 1, 1, 1, <<St("R1", 1, TRUE, "run"), St("S1", 1, FALSE, "run")>>),
+            S2 |-> Sn("F1", "", FALSE, -1, 0, 2, <<St("S2", 1, FALSE, "run"), St("S2", 2, FALSE, "nomatch")>>),
+            S3 |-> Sn("F2", "", FALSE, 1, 0, 3, <<St("S3", 1, FALSE, "ambig")>>)]
+CaseMix(limit, ff, before, after) ==
+  Case(limit, ff, before, after,
+       [F1 |-> Ft(2, 1, 4, <<"S2", "S1">>), F2 |-> Ft(1, 0, 1, <<"S3">>)],
+       [R1 |-> [f |-> "F1", nscen |-> 1]], MixScen, <<PF("F1"), PF("F2")>>)
+Mix2 == CaseMix(2, FALSE, TRUE, TRUE)
+Mix2FF == CaseMix(2, TRUE, TRUE, FALSE)
+MixU == CaseMix(-1, FALSE, FALSE, TRUE)
+
+\* four concurrent one-step scenarios under limit 2 and 3: slot accounting and work conservation
+WideScen == [S1 |-> Sn("F1", "", FALSE, -1, 0, 1, <<St("S1", 1, FALSE, "run")>>),
+             S2 |-> Sn("F1", "", FALSE, -1, 0, 2, <<St("S2", 1, FALSE, "run")>>),
+             S3 |-> Sn("F1", "", FALSE, 1, 0, 3, <<St("S3", 1, FALSE, "run")>>),
+             S4 |-> Sn("F1", "", TRUE, -1, 0, 4, <<St("S4", 1, FALSE, "run")>>)]
+CaseWide(limit, ff) ==
+  Case(limit, ff, FALSE, FALSE, [F1 |-> Ft(4, 0, 4, <<"S1", "S2", "S3", "S4">>)], <<>>, WideScen, <<PF("F1")>>)
+Wide2 == CaseWide(2, FALSE)
+Wide3FF == CaseWide(3, TRUE)
+
 VIEW_NoStats ==
   <<pPos, pDone, qS, qC, epc, slots, batch, run, serialStarted, finQ, cntF, cntR, now, nid, nfail,
     logChan, nlogs, [o EXCEPT !.stats = 0, !.ndelivered = 0]>>
